@@ -290,6 +290,10 @@ func (e *Environment) Delete(name string) Object {
 		e.noteReplaced(name, old)
 		delete(e.store, name)
 		log.Debugf("Delete(%s) found at %d %v", name, e.depth, e.cacheKey)
+		if r, isRef := old.(Reference); isRef {
+			// The local entry was only a reference (the variable was read or written here before): delete the variable itself.
+			return r.RefEnv.Delete(r.Name)
+		}
 		return TRUE
 	}
 	if e.outer != nil {
